@@ -7,13 +7,13 @@ RULE = ("directed histories (diamond, heads at different heights, null/value tie
         "point with all replicas compared; distinct = distinct (case, commit count)")
 ASSUME = [
     "the Lean mirror of updateHeads/setValue/incrementValue/Merge/isMerged/loadComposites/processBlock is the Go code (compared after every local write and every delivery, incl. head sets)",
-    "mirror state = canon(merged set) is checked by execution at every step (SPEC-DIFFERS marker); proved about the walk for every block store: it collects each commit at most once, skips only commits reachable from the heads (isMerged is sound), and reaches every commit reachable through unmerged commits; and, in a well-formed store, isMerged decides exactly 'head or ancestor of a head' (merged_commit_is_recognised); proved end to end at the composite level (Props/C02 merge_applies_exactly_the_unmerged_ancestors_once, about mergeDoc itself): the applied blocks are exactly the commit and its unmerged ancestors, once each, parents first; merged set after = merged set before + ancestors; its hypotheses (wfCheck, headsCheck) are evaluated by drv crdt on every store of the run (MERGE-THEOREM-HYPOTHESIS-FALSE marker); NOT proved: the same statement for the field-level head sets and values (lww/counter), which stays checked by execution (mirror = canon)",
+    "mirror state = canon(merged set) is checked by execution at every step (SPEC-DIFFERS marker); proved about the walk for every block store: it collects each commit at most once, skips only commits reachable from the heads (isMerged is sound), and reaches every commit reachable through unmerged commits; and, in a well-formed store, isMerged decides exactly 'head or ancestor of a head' (merged_commit_is_recognised); proved end to end at the composite level (Props/C02 merge_applies_exactly_the_unmerged_ancestors_once, about mergeDoc itself): the applied blocks are exactly the commit and its unmerged ancestors, once each, parents first; merged set after = merged set before + ancestors; its hypotheses (wfCheck, headsCheck) are evaluated by drv crdt on every store of the run (MERGE-THEOREM-HYPOTHESIS-FALSE marker); and for the whole document state (Props/C02 merge_end_to_end_whole_document, counter_gains_each_new_increment_once): every head set, composite and per field, grows by exactly the processed blocks of its kind, and the values are the old ones with the deltas of the applied blocks - the processed blocks not merged before, each once, equal content-addressed field blocks linked by several composites counted once; hypotheses wfCheck3 / kinvCheck / linkInvCheck evaluated on every store and state of the run; NOT proved: that mirror = canon(merged set) as a closed formula (max/sum over the merged set) follows - that step uses the fold lemmas of C01 (order independence) and is checked by execution",
     "every block a delivery refers to is available (the harness copies the block store before each delivery), i.e. `known` is always true",
     "cid is a function of content (SHA-256 collision freedom); labels are assigned per cid",
 ]
 NOTE = ("Trusted: Lean kernel; harness/crdt, harness/node, overlay hook VerifExecuteMerge, Driver/Crdt.lean. PARTIAL: the theorems cover the CRDT algebra "
         "(order independence, sums, max, sticky delete, head-set step invariant) for all histories; the walk is proved to hand each commit over at most once, to skip only merged commits "
-        "and to reach every unmerged ancestor (Props/C02); isMerged is proved exact for well-formed stores; one delivered commit is proved end to end for the composite level of mergeDoc (applied = commit + unmerged ancestors, each once, parents first; merged set grows by exactly them; Props/C01 same_merged_set_after_same_delivery), under hypotheses evaluated on every store of the run; the field level of the refinement mirror = canon(merged set) is still checked by execution after every delivery. "
+        "and to reach every unmerged ancestor (Props/C02); isMerged is proved exact for well-formed stores; one delivered commit is proved end to end for the composite level of mergeDoc (applied = commit + unmerged ancestors, each once, parents first; merged set grows by exactly them; Props/C01 same_merged_set_after_same_delivery), under hypotheses evaluated on every store of the run; and for the whole document (every head set and the values: applied = processed blocks not merged before, each once; counters gain each new increment once); the closed form canon(merged set) is checked by execution after every delivery. "
         "Float counters are outside the model (IEEE addition is not associative).")
 
 def prop(props_module, tags):
